@@ -23,6 +23,7 @@ import subprocess
 import tempfile
 
 PROP = "C18"
+DERIVED_MATLAB_NAME = "gtsamunstable.partition.DerivedObjectWithAnUnusuallyLongMatlabClassNameToOutgrowFixedBuffers0123456789"
 VERIF = os.path.dirname(os.path.dirname(os.path.abspath(__file__)))
 MEXSIM = os.path.join(VERIF, "mexsim")
 REPO = os.environ.get("VERIF_REPO", "/repo")
@@ -298,7 +299,7 @@ def gen_script(t):
             else:
                 s = md.next_slot
                 md.next_slot += 1
-                cls = ("Derived" if md.derived[ser] else "Obj") if virt else "Obj"
+                cls = (DERIVED_MATLAB_NAME if md.derived[ser] else "Obj") if virt else "Obj"
                 md.slots[s] = {"kind": "object", "serial": ser, "cls": cls}
                 e.update(expect="object", slot=s, cls=cls)
             ops.append(("wsp %d %d" % (h, virt), e))
